@@ -24,14 +24,18 @@ def schema_text():
         return f.read()
 
 
-def labels_of(valid):
-    """Validity flags (concrete bools) -> label per instant (None inside gaps)."""
+def labels_of(valid, brk=()):
+    """Validity flags (concrete bools) -> label per instant (None inside gaps).
+
+    brk: indices b such that a gap of the level record lies strictly between the valid instants
+    b and b+1 without containing a grid instant (a logger faster than the grid that misses a few
+    readings): the label changes although no instant is NULL."""
     out = []
     lab = 0
     prev = False
-    for v in valid:
+    for i, v in enumerate(valid):
         if v:
-            if not prev:
+            if not prev or (i - 1) in brk:
                 lab += 1
             out.append(lab)
         else:
@@ -40,7 +44,7 @@ def labels_of(valid):
     return out
 
 
-def build(conn, epochs, valid, rain, et, zeta, step_s, tz='UTC'):
+def build(conn, epochs, valid, rain, et, zeta, step_s, tz='UTC', brk=()):
     """Populate a symsql connection with an Inv_load state.
 
     epochs: G+1 instants (ints or SymInts); valid: G+1 concrete bools; rain/et: G
@@ -49,7 +53,7 @@ def build(conn, epochs, valid, rain, et, zeta, step_s, tz='UTC'):
     cur.executescript(schema_text())
     G = len(epochs) - 1
     cur.execute('INSERT INTO time_grid (source_time_zone, time_step_s) VALUES (?, ?)', (tz, step_s))
-    labels = labels_of(valid)
+    labels = labels_of(valid, brk)
     for t, lab in zip(epochs, labels):
         cur.execute('INSERT INTO grid_time (epoch, data_interval) VALUES (?, ?)', (t, lab))
     for i in range(G):
@@ -65,7 +69,7 @@ def build(conn, epochs, valid, rain, et, zeta, step_s, tz='UTC'):
     return labels
 
 
-def texts_for(epochs, valid, rain, et, zeta, step_s, utc_offset_s=0):
+def texts_for(epochs, valid, rain, et, zeta, step_s, utc_offset_s=0, brk=()):
     """Three CSV texts from which the real `spowtd load` produces the state above.
 
     The level record is sampled at one third of the grid step: around every valid
@@ -91,9 +95,9 @@ def texts_for(epochs, valid, rain, et, zeta, step_s, utc_offset_s=0):
         if not valid[i]:
             continue
         samples[epochs[i]] = val(i)
-        if i > 0:
+        if i > 0 and (i - 1) not in brk:
             samples.setdefault(epochs[i] - h, (2 * val(i) + val(i - 1)) / 3 if valid[i - 1] else val(i))
-        if i < G:
+        if i < G and i not in brk:
             samples.setdefault(epochs[i] + h, (2 * val(i) + val(i + 1)) / 3 if valid[i + 1] else val(i))
     first_valid = next((i for i in range(G + 1) if valid[i]), None)
     if not valid[0]:
